@@ -150,6 +150,9 @@ def max_index(fn, idx):
     if n["k"] == "bin" and n["op"] == "+":
         a, b = max_index(fn, n["l"]), max_index(fn, n["r"])
         return a + b if a is not None and b is not None else None
+    if n["k"] == "cond":
+        a, b = max_index(fn, n["t"]), max_index(fn, n["f"])
+        return max(a, b) if a is not None and b is not None else None
     if n["k"] == "ref" and n["dk"] == "local":
         vals = []
         init, v = local_init(fn, n["name"])
@@ -181,7 +184,7 @@ AUDITED_NO_PROGRESS = {
 
 def run(ctx):
     # locals / parameters the rules below refer to by name (a rename makes the analysis 'broken', never a violation)
-    ctx.anchor(ctx.fn1('Oomd::Fs::readDirFromDIR'), 'de', 'flags')
+    ctx.anchor(ctx.fn1('Oomd::Fs::readDirFromDIR'), 'flags')
     P, cg = ctx.prog, ctx.cg
     E = Escape(P, cg)
     main, roots = main_loop_roots(ctx)
@@ -359,23 +362,7 @@ def run(ctx):
     ctx.floor("lines_index_sites", 6, "indexing sites into control-file line vectors")
 
     # ------------------------------------------------ (iii) readDirFromDIR sibling agreement
-    rd = ctx.fn1("Oomd::Fs::readDirFromDIR")
-    fl = Flow(P, rd, cg=cg)
-    pushes = [i for i in rd.calls("push_back", "emplace_back")]
-    by = {"DE_DIR": [], "DE_FILE": []}
-    for i in pushes:
-        g = fl.guards(i)
-        tgt = rd.text(rd.nodes[i]["recv"])
-        for flag in by:
-            if any(p is True and flag in k for k, p in g):
-                by[flag].append((i, tgt))
-    for flag, want in (("DE_DIR", "de.dirs"), ("DE_FILE", "de.files")):
-        ctx.counters["readdir_push_" + flag] = len(by[flag])
-        ctx.floor("readdir_push_" + flag, 2, "push sites under %s (d_type branch and fstatat branch)" % flag)
-        for i, tgt in by[flag]:
-            ctx.check(tgt == want, "readdir-classification:%s:%s" % (flag, "fast" if any("d_type" in k for k, p in fl.guards(i)) else "fallback"),
-                      "sibling_agreement", rd.loc(i), "entries selected by %s go to %s" % (flag, want),
-                      "entries selected by %s are pushed to %s (the d_type-less fallback disagrees with the fast path)" % (flag, tgt))
+    readdir_classification(ctx, "C10")
 
     readdir_does_not_follow_links(ctx, "C10")
     # ------------------------------------------------ (iv) erase in iteration (tick-reachable)
